@@ -168,6 +168,8 @@ class YieldingAttr(object):
         try:
             return obj.__dict__[self.name]
         except KeyError:
+            if hasattr(self, "default"):     # the attribute was a class-level default before instrumentation
+                return self.default
             raise AttributeError(self.name)
 
     def __set__(self, obj, value):
